@@ -23,6 +23,7 @@ type Run struct {
 	Writer  WriterArgs
 	Strace  int    // if > 0: kill at the N-th pwrite64 (strace injection) instead of a hook point
 	ExtKill int    // if > 0: external SIGKILL this many ms after the writer went idle
+	DelayReopen int // ms to wait before the bucket is reopened (lets a deadline pass while the bucket is closed)
 	Reader  ReaderArgs
 	Tmp     string
 }
@@ -177,6 +178,9 @@ func (r *Run) Execute() Outcome {
 		}
 	}
 	// ---- reopen in a fresh process
+	if r.DelayReopen > 0 {
+		time.Sleep(time.Duration(r.DelayReopen) * time.Millisecond)
+	}
 	r.Reader.Dir, r.Reader.Name = dir, name
 	r.Reader.Colls = 3
 	r.Reader.Keys = nil
@@ -285,8 +289,8 @@ func (r *Run) Execute() Outcome {
 	} else {
 		var want []string
 		for dk, o := range rd.Docs {
-			if !strings.HasPrefix(dk, "c0/") {
-				continue
+			if !strings.HasPrefix(dk, "c0/") || dk == "c0/expiring" {
+				continue // (the expiring document may be tombstoned by the timer between the read-back and the query)
 			}
 			if o.HasBody() || (o.Present() && len(o.GX) > 0) {
 				want = append(want, strings.TrimPrefix(dk, "c0/"))
@@ -296,7 +300,7 @@ func (r *Run) Execute() Outcome {
 		sort.Strings(want)
 		var got []string
 		for _, id := range rd.ViewAll {
-			if _, ok := rd.Docs["c0/"+id]; ok {
+			if _, ok := rd.Docs["c0/"+id]; ok && id != "expiring" {
 				got = append(got, id)
 			}
 		}
@@ -320,6 +324,9 @@ func (r *Run) Execute() Outcome {
 	if r.Reader.WaitExp > 0 && r.Writer.Expiry != 0 {
 		for key, goneMs := range rd.ExpGoneMs {
 			abs := rd.ExpAbs[key]
+			if abs == 0 && goneMs >= 0 {
+				continue // it was overdue at reopen and went before its expiry could be read back: as required
+			}
 			if abs == 0 {
 				out.Problems = append(out.Problems, fmt.Sprintf("expiry-lost|collection %s: the document written with a %ds expiry has no expiry after reopen", key, r.Writer.Expiry))
 				continue
